@@ -122,6 +122,9 @@ type c03Case struct {
 	// over another transport: a perfectly good reply (a correct client never gets that far: one call, one request)
 	again []byte
 	reqs  atomic.Int32
+	// loopback layer, directed UDP: a perfectly formed reply for this very request that comes from ANOTHER address than the controller's
+	// (sent first): the request went to the controller over a connected socket - what other hosts send to the port is not its reply
+	decoy []byte
 }
 
 func c03Judge(c *Ctx, cs *c03Case, out rm.Outcome, panicked bool, elapsed, T time.Duration, layer string, caseNo int64, consumed int) {
@@ -331,6 +334,9 @@ func c03Loopback(c *Ctx) {
 			return []farm.Action{{Data: cs.again}}
 		}
 		actions := []farm.Action{}
+		if cs.decoy != nil && ep == cu {
+			actions = append(actions, farm.Action{Data: cs.decoy, Via: bc})
+		}
 		for i, d := range cs.dgrams {
 			delay := time.Millisecond
 			if ep.Proto == "udp" && serial%2 == 0 {
@@ -433,6 +439,10 @@ func c03Loopback(c *Ctx) {
 				fixArgs(jb.op, a, aux)
 				cs := &c03Case{path: jb.path, op: jb.op, serial: serial, args: a, pres: p}
 				cs.build(rr, jb.classes, uint32(i)*131)
+				if jb.path == "udp" && i%3 == 0 && !jb.op.NoReply && len(cfg.Devices) == 1 && cfg.Devices[0].Addr == cu.Addr {
+					cs.decoy = rr.Datagram(jb.op, serial, a, gen.Valid, 0x0d&markerMask(jb.op))
+					c.Res.Count("loopback:udp:cases-with-a-well-formed-reply-from-another-address-first", 1)
+				}
 				cases.Store(serial, cs)
 				start := time.Now()
 				out, panicked := adapter.SafeCall(u, jb.op.Name, serial, a, aux)
